@@ -15,6 +15,7 @@ import (
 	"pgregory.net/rapid"
 
 	"verif/harness/internal/ev"
+	"verif/harness/internal/loglevel"
 )
 
 // ---- specification-side representation of a generated action -------------
@@ -613,6 +614,9 @@ func TestRequestFoldRandom(t *testing.T) {
 	r := ev.New(t, "C07")
 	rapid.Check(t, func(t *rapid.T) {
 		seq := rapid.SliceOfN(genReqSpec(), 1, 6).Draw(t, "actions")
+		level := loglevel.Gen().Draw(t, "log level")
+		r.Class("log level " + level)
+		defer loglevel.Set(level)()
 		r.Case()
 		r.Class(fmt.Sprintf("len=%d", len(seq)))
 		if nonTrivial(seq) {
@@ -628,6 +632,9 @@ func TestResponseFoldRandom(t *testing.T) {
 	r := ev.New(t, "C07")
 	rapid.Check(t, func(t *rapid.T) {
 		seq := rapid.SliceOfN(genRespSpec(), 1, 6).Draw(t, "actions")
+		level := loglevel.Gen().Draw(t, "log level")
+		r.Class("log level " + level)
+		defer loglevel.Set(level)()
 		r.Case()
 		r.Class(fmt.Sprintf("len=%d", len(seq)))
 		if nonTrivial(seq) {
